@@ -130,14 +130,15 @@ def sk_open(data, integ_id, sk_a, sk_e, check_layout=True):
     return m, pls, info
 
 
-def sk_seal(hdr, inner_payloads, integ_id, sk_a, sk_e, iv, inner_raw=None, inner_first=None, padlen=None):
+def sk_seal(hdr, inner_payloads, integ_id, sk_a, sk_e, iv, inner_raw=None, inner_first=None, padlen=None, pad_fill=None):
     """Build a protected datagram (reference encoder). hdr: spi_i, spi_r, major, minor, exch, flags, mid."""
     if inner_raw is None:
         inner_raw = codec.enc_chain(inner_payloads)
         inner_first = inner_payloads[0]['type'] if inner_payloads else 0
     if padlen is None:
         padlen = (16 - (len(inner_raw) + 1) % 16) % 16
-    pt = inner_raw + b'\0' * padlen + bytes([padlen & 0xFF])
+    pad = b'\0' * padlen if pad_fill is None else bytes(pad_fill[i % len(pad_fill)] for i in range(padlen))     # RFC 7296 3.14: the padding may hold any value
+    pt = inner_raw + pad + bytes([padlen & 0xFF])
     if len(pt) % 16:
         pt += b'\0' * (16 - len(pt) % 16)      # only when a caller forces a wrong padlen
     ct = aes_cbc_encrypt(sk_e, iv, pt)
